@@ -522,14 +522,14 @@ func (m *c04Model) solve(g *c04Goal, e *menv, local map[string]*mt, k func(*menv
 				return s
 			}
 			m.caught++
-			return m.solve(g.Args[1], e, local, k) // bindings of the catcher to an unknown term are never observed (catchers for these use _)
+			return m.recovery(g.Args[1], e, local, k) // bindings of the catcher to an unknown term are never observed (catchers for these use _)
 		}
 		e2, ok := e.unify(catcher, ball) // e: the bindings at the time catch/3 was called
 		if !ok {
 			return s
 		}
 		m.caught++
-		return m.solve(g.Args[1], e2, local, k)
+		return m.recovery(g.Args[1], e2, local, k)
 	case "badgoal":
 		// what call/1 does with a goal that is not callable (raised before anything of the goal runs)
 		switch g.Kind {
@@ -577,6 +577,17 @@ func (m *c04Model) solve(g *c04Goal, e *menv, local map[string]*mt, k func(*menv
 		return sigFail
 	}
 	panic("c04 model: unknown goal " + g.Op)
+}
+
+// recovery runs the Recovery goal of a catch/3: it is called like call/1 calls a goal, so a cut in it is local to it.
+func (m *c04Model) recovery(g *c04Goal, e *menv, local map[string]*mt, k func(*menv) sig) sig {
+	id := m.nextStop + 1
+	m.nextStop++
+	s := m.solveIn(g, e, local, id, k)
+	if s == sigStop && m.stopID == id {
+		return sigFail
+	}
+	return s
 }
 
 // solveIn solves g as the whole argument of a construct that is opaque to cut (clause body, call/1, once/1, \\+, the
